@@ -4,7 +4,7 @@ TLC explores every load / load_external / set_permission / link history within t
 .cfg (BFS, history hidden by VIEW, every transition emitted with a shortest behaviour to it) and checks
 BindLatest / RedefRejected / UndefinedReported / LocalBinding / OldBindingsStable on the model; every
 emitted behaviour is replayed on a real MIR context by harness/c13_link.c."""
-import json, os, subprocess, sys, copy, threading, atexit
+import json, os, subprocess, sys, copy, threading, time
 from concurrent.futures import ThreadPoolExecutor
 import vlib
 from vlib import Check, run_tlc, tlc_ok, MachineryError
@@ -169,7 +169,9 @@ def run(tier, mutate=None):
         c_states = c_trans = c_cases = c_bad = 0
         c_wall = 0.0
         for part in (range(1, nparts + 1) if nparts > 1 else [0]):
+            t0 = time.time()
             cases, states, distinct, wall = generate(cfg, part, nparts, sim)
+            t1 = time.time()
             if not cases:
                 raise MachineryError("no behaviours emitted by %s part %d" % (cfg, part))
             if mutate:
@@ -186,6 +188,8 @@ def run(tier, mutate=None):
             ck.add("steps_replayed", sum(len(c["h"]) for c in cases) * len(engines))
             ck.add("link_steps", sum(1 for c in cases for s in c["h"] if s["a"] == "link") * len(engines))
             ck.add("error_endings", sum(1 for c in cases if c["h"][-1].get("err")) * len(engines))
+            if nparts > 1:
+                vlib.log("    part %d/%d: %d behaviours, generation %.0fs, replay %.0fs" % (part, nparts, len(cases), t1 - t0, time.time() - t1))
             del cases
         tot_states += c_states
         tot_trans += c_trans
@@ -251,7 +255,8 @@ def selftest():
     good = cases[len(cases) // 2]
     for name, c in tests:
         fails, died = run_chunk([(0, good, 0), (1, c, 0)])
-        ok = any(f[0] == 1 for f in fails) and not any(f[0] == 0 for f in fails) and not died
+        # (the unchanged behaviour may hit the late-first-run finding; only the corrupted one is judged)
+        ok = any(f[0] == 1 and not f[2].startswith("late_") for f in fails) and not any(f[0] == 0 and not f[2].startswith("late_") for f in fails) and not died
         print("selftest %s: corrupted behaviour %s" % (name, "rejected" if ok else "NOT rejected"))
         bad += 0 if ok else 1
     return 1 if bad else 0
